@@ -27,6 +27,12 @@ the calls and the rebuilt header of `readHandshake`; the splitting arithmetic of
 -- (The statement-text facts about dtlcp/fragment.go that used to be pinned here — guard, copy, bit loop, masks —
 -- are superseded by the tie by translation: `Gotlcp.Tie.Fragment` proves the TRANSLATED functions equal to the
 -- model for all inputs, which is insensitive to renamings and equivalent re-arrangements of the text.)
+-- (Likewise the statement-text facts about the SENDER `writeHandshakeRecord` — single-record test, `maxFragBody`,
+-- `fragEnd` and its clamp, the loop header — are no longer pinned: the function is translated on every run and
+-- `Gotlcp.Tie.TxFragment` / `Gotlcp.Tie.TxFragmentModel` prove the translated text equal to the model
+-- `writeHandshake` for all inputs (`C17_src_tx_is_model` in Props/C17SrcTx.lean).  The extractor still emits
+-- `txSingleWhenFits`, `txMaxFragBody`, `txFragEnd`, `txLoop`, … for information; a renamed local leaves them
+-- empty without breaking anything.)
 theorem C17_facts :
     Facts.missing = [] ∧
     Facts.dtlcp.dtlcpHeaderLen = 12 ∧ Facts.dtlcp.maxHandshake = FragmentSpec.maxHandshake ∧
@@ -39,11 +45,7 @@ theorem C17_facts :
                                    "0", "0", "0", "data[1]", "data[2]", "data[3]"] ∧
     Facts.dtlcp.rxBodyLen = "int(data[1])<<16 | int(data[2])<<8 | int(data[3])" ∧
     Facts.dtlcp.rxFragOff = "int(data[6])<<16 | int(data[7])<<8 | int(data[8])" ∧
-    Facts.dtlcp.rxFragLen = "int(data[9])<<16 | int(data[10])<<8 | int(data[11])" ∧
-    Facts.dtlcp.txSingleWhenFits = true ∧ Facts.dtlcp.txMaxFragBody = "maxPayload - dtlcpHeaderLen" ∧
-    Facts.dtlcp.txZeroFragBodyIsError = true ∧ Facts.dtlcp.txFragEnd = "offset + uint24(maxFragBody)" ∧
-    Facts.dtlcp.txFragEndClamped = true ∧
-    Facts.dtlcp.txLoop = "offset := uint24(0); offset < bodyLen;  … offset = fragEnd" := by
+    Facts.dtlcp.rxFragLen = "int(data[9])<<16 | int(data[10])<<8 | int(data[11])" := by
   decide
 
 /-- The repair of finding F19 is present in the tree: a fragment whose announced message
@@ -367,13 +369,17 @@ theorem C17_transcript_same_for_all_pmtu (typ seq : Nat) (body : Bytes) (mp1 mp2
   ⟨_, (C17_transcript_pmtu_independent typ seq body mp1 h1 hmax hc1).2,
       (C17_transcript_pmtu_independent typ seq body mp2 h2 hmax hc2).2, rfl, rfl⟩
 
-/-- The source facts behind `writeHandshakeT` and the receiver's hashing: the sender calls
-`transcript.Write(data)` on the marshalled message before `maxPayloadSizeForWrite` is even
-consulted and never writes to the transcript inside the fragment loop; the receiver calls
-`transcript.Write(data)` once, after the header was rebuilt and the message unmarshalled. -/
+/-- The source facts behind the receiver's hashing and the sender's treatment of the marshalled bytes: the
+receiver calls `transcript.Write(data)` once, after the header was rebuilt and the message unmarshalled; the
+sender's fragment loop builds every header in an array declared inside the loop and never writes into (nor hands
+to a call other than `len` / as a source of `append`) the marshalled encoding or a slice of it — an effect on the
+message object's cached bytes that the value semantics of the translation would not show
+(`txLoopBuildsFreshHeader`, extracted without reference to the names of the locals).
+That the SENDER writes the marshalled, unfragmented `data` to the transcript exactly once, whatever happens
+afterwards, is no text fact any more: it is proved of the translated `writeHandshakeRecord`
+(`C17_src_tx_is_model`, `C17_src_tx_fragments` in Props/C17SrcTx.lean). -/
 theorem C17_transcript_facts :
-    Facts.dtlcp.txTranscriptWrites = ["transcript.Write(data)"] ∧ Facts.dtlcp.txTranscriptBeforeSplit = true ∧
-    Facts.dtlcp.txDataIsMarshal = true ∧ Facts.dtlcp.txLoopBuildsFreshHeader = true ∧
+    Facts.dtlcp.txLoopBuildsFreshHeader = true ∧
     Facts.dtlcp.rxTranscriptWrites = ["transcript.Write(data)"] ∧ Facts.dtlcp.rxTranscriptAfterRebuild = true := by
   decide
 
